@@ -188,12 +188,12 @@ fn main() {
                         };
                         s.notify(&m, p).await;
                         if h["inline"].as_bool() == Some(true) {
-                            if !s.parked().contains_key(&s.main_task) {
+                            if !s.parked().contains_key(&s.main_task) && diverged.is_none() {
                                 diverged = Some(json!({"at": k, "why": "inline handler did not park on the main task"}));
                             }
                             map.insert(woke[0], s.main_task);
                             woke.clear();
-                        } else if s.parked().contains_key(&s.main_task) {
+                        } else if s.parked().contains_key(&s.main_task) && diverged.is_none() {
                             diverged = Some(json!({"at": k, "why": "handler runs inline on the main loop but the spec constant says spawned"}));
                         }
                     }
@@ -202,19 +202,31 @@ fn main() {
                         let lock = h["lock"].as_str().unwrap();
                         let mode = h["mode"].as_str().unwrap().chars().next().unwrap();
                         match map.get(&i) {
-                            None => diverged = Some(json!({"at": k, "why": format!("spec task {i} has no real counterpart")})),
+                            None => {
+                                if diverged.is_none() {
+                                    diverged = Some(json!({"at": k, "why": format!("spec task {i} has no real counterpart")}));
+                                }
+                            }
                             Some(real) => {
                                 let parked = s.parked();
                                 match parked.get(real) {
-                                    Some((l, m)) if l == lock && *m == mode => {
-                                        if !s.grantable(*real) {
-                                            diverged = Some(json!({"at": k, "why": format!("lock {lock}.{mode} not grantable for spec task {i}")}));
-                                        } else {
+                                    Some((l, m)) => {
+                                        if (l != lock || *m != mode) && diverged.is_none() {
+                                            diverged = Some(json!({"at": k, "why": format!("spec task {i} expected parked at {lock}.{mode}, real: {l}.{m}")}));
+                                        }
+                                        // after a divergence the schedule is only an ORDER in which to step the real tasks
+                                        if s.grantable(*real) {
                                             s.step(*real).await;
                                             steps += 1;
+                                        } else if diverged.is_none() {
+                                            diverged = Some(json!({"at": k, "why": format!("lock {l}.{m} not grantable for spec task {i}")}));
                                         }
                                     }
-                                    other => diverged = Some(json!({"at": k, "why": format!("spec task {i} expected parked at {lock}.{mode}, real: {other:?}")})),
+                                    None => {
+                                        if diverged.is_none() {
+                                            diverged = Some(json!({"at": k, "why": format!("spec task {i} expected parked at {lock}.{mode}, real task is not parked")}));
+                                        }
+                                    }
                                 }
                             }
                         }
@@ -227,25 +239,22 @@ fn main() {
                     }
                     x => panic!("action {x}"),
                 }
-                if diverged.is_some() {
-                    break;
-                }
                 // eager identification of the tasks that became runnable in this transition
                 let newly = s.new_tasks();
-                if newly.len() != woke.len() {
+                if newly.len() != woke.len() && diverged.is_none() {
                     diverged = Some(json!({"at": k, "why": format!("spec woke {woke:?} but {} real tasks newly parked", newly.len()),
                                            "entry": h}));
-                    break;
                 }
                 for (si, ri) in woke.iter().zip(newly.iter()) {
                     map.insert(*si, *ri);
                 }
-                match observe(&s, &root, &uris) {
-                    None => {} // a lock is write-held across the step: not observable now
-                    Some(r) => {
-                        if let Some(why) = same(&h["st"], &r) {
-                            diverged = Some(json!({"at": k, "why": why, "entry": h, "real": real_json(&r)}));
-                            break;
+                if diverged.is_none() {
+                    match observe(&s, &root, &uris) {
+                        None => {} // a lock is write-held across the step: not observable now
+                        Some(r) => {
+                            if let Some(why) = same(&h["st"], &r) {
+                                diverged = Some(json!({"at": k, "why": why, "entry": h, "real": real_json(&r)}));
+                            }
                         }
                     }
                 }
